@@ -192,7 +192,7 @@ class Lib:
         np["round"] = LibFunc("np.round", self.np_round)
         np["around"] = np["round"]
         np["array"] = LibFunc("np.array", self.np_array)
-        np["asarray"] = np["array"]
+        np["asarray"] = LibFunc("np.asarray", self.np_asarray)
         np["zeros"] = LibFunc("np.zeros", self.np_zeros)
         np["zeros_like"] = LibFunc("np.zeros_like", self.np_zeros_like)
         np["copy"] = LibFunc("np.copy", lambda i, a: A.copy(_arr(a, i)))
@@ -271,6 +271,16 @@ class Lib:
         if isinstance(data, SeriesVal):
             return A.copy(data.arr)
         return A.from_nested(interp.to_py(data), dt)
+
+    def np_asarray(self, interp, data, dtype=None, **kw):
+        """np.asarray returns ITS ARGUMENT (no copy) when it already is an array of the requested dtype: stores through the
+        result then reach the caller's array.  The engine's dtype classes (float/int/bool/complex) are coarser than numpy's, so
+        an equal class is treated as 'no copy' (the aliasing case; value-wise both cases agree)."""
+        d0 = norm(data)
+        dt = A.norm_dtype(dtype.name if isinstance(dtype, DType) else dtype) if dtype is not None else None
+        if isinstance(d0, A.Arr) and (dt is None or dt == d0.dtype):
+            return d0
+        return self.np_array(interp, data, dtype, **kw)
 
     def np_zeros(self, interp, shape, dtype=None, **kw):
         shape = norm(shape)
